@@ -300,7 +300,7 @@ func swapRemove(roots []types.Hash256, indices []uint64) []types.Hash256 {
 // host's roots and revision stay consistent; a failed RPC changes nothing; a
 // successful one removes exactly the requested sectors as the list model does.
 //
-//verif:harness prop=C08,C09 tier=quick replay=native require=freed,aborted,rejected bounds="contract of 1..4 sectors; 1..2 raw indices each 0..5 (any order, duplicates, out of range); selectors: challenge signature valid/forged, price table valid/expired/foreign/tampered, second round honest/forged signature/absent; payouts and revision number symbolic"
+//verif:harness prop=C08,C09 tier=quick replay=native require=freed,aborted,rejected bounds="contract of 1..4 sectors; 1..2 raw indices, each any 64-bit value (any order, duplicates, out of range); selectors: challenge signature valid/forged, price table valid/expired/foreign/tampered, second round honest/forged signature/absent; payouts and revision number symbolic"
 func VerifH_C09_free() { verifFree("free") }
 
 func verifFree(tag string) {
@@ -309,7 +309,8 @@ func verifFree(tag string) {
 	k := vapi.Int("nIndices", 1, 2)
 	indices := make([]uint64, k)
 	for i := range indices {
-		indices[i] = uint64(vapi.Int("index", 0, 5))
+		// untrusted input: any 64-bit value
+		indices[i] = vapi.U64("index")
 	}
 	req := proto4.RPCFreeSectorsRequest{ContractID: w.id, Prices: w.prices, Indices: indices}
 	badPrices := w.corruptPrices(&req.Prices)
